@@ -45,7 +45,8 @@ def run(ctx):
         # only counters that do not depend on the behaviour of the code under test
         for k in ("ev_svc", "ev_del", "ev_cfg", "ev_cfg_orphaning", "ev_node", "ev_node_flag_change", "ev_node_first_with_services_present",
                   "ev_spk", "fresh_announces_l2", "fresh_announces_bgp", "oracle_gone_checks",
-                  "elig_history_checks", "multi_histories", "multi_contested_elections"):
+                  "elig_history_checks", "multi_histories", "multi_contested_elections", "multi_dual_address_services",
+                  "l2_interface_checks_with_lists"):
             if st.get(k, 0) == 0:
                 raise vlib.Broken("generator degenerate: counter %r is zero: %r" % (k, st))
 
